@@ -12,7 +12,10 @@ log = logging.getLogger('supp.assistant')
 
 
 def list_packages(project, root, filename):
-    root = project.norm_package(root, filename)
+    try:
+        root = project.norm_package(root, filename)
+    except ImportError:
+        return []
     return sorted(r for r in project.list_packages(root))
 
 
@@ -40,7 +43,10 @@ def assist(project, source, position, filename=None, debug=False):
             return prefix, list_packages(project, head, filename)
         else:
             plist = list_packages(project, head, filename)
-            module = project.get_nmodule(head, filename)
+            try:
+                module = project.get_nmodule(head, filename)
+            except ImportError:
+                return prefix, plist
             return prefix, sorted(set(plist) | set(module.attr_list(ctx)))
 
     scope = extract_scope(source, project)
@@ -77,21 +83,25 @@ def location(project, source, position, filename=None, debug=False):
 
     if marked_import:
         head, tail = marked_import
-        if tail is None:
-            name = project.get_nmodule(head, filename)
-        else:
-            if not tail:
-                full = head
-                head, tail = split_pkg(head)
+        try:
+            if tail is None:
+                name = project.get_nmodule(head, filename)
             else:
-                full = join_pkg(head, tail)
+                if not tail:
+                    full = head
+                    head, tail = split_pkg(head)
+                else:
+                    full = join_pkg(head, tail)
 
-            module = project.get_nmodule(head, filename)
-            name = module.get_attr(ctx, tail)
-            if not name:
-                name = project.get_nmodule(full, filename)
+                module = project.get_nmodule(head, filename)
+                name = module.get_attr(ctx, tail)
+                if not name:
+                    name = project.get_nmodule(full, filename)
+        except ImportError:
+            name = None  # unknown or half-typed module name
 
-        result = ctx.declarations(name, [])
+        if name:
+            result = ctx.declarations(name, [])
     else:
         node = get_marked_name(source.tree) or get_marked_atribute(source.tree)
         if node:
